@@ -423,6 +423,12 @@ func c07Dispatch(co *caseOut, kind string, raw json.RawMessage) error {
 			return err
 		}
 		run(func() { c07RunAdmit(co, in) })
+	case "wstate":
+		var in c07WsIn
+		if err := json.Unmarshal(raw, &in); err != nil {
+			return err
+		}
+		run(func() { c07RunWs(co, in) })
 	case "chist":
 		var in c07HistIn
 		if err := json.Unmarshal(raw, &in); err != nil {
@@ -447,6 +453,7 @@ func runC07(args []string) error {
 	co := newCaseOut(cf.out, "Harness.C07", "N",
 		"shape/boundary: every signer shape 1-of-1 .. 8-of-8 and single signature (thorough: sampled up to 200 keys, beyond the verification gas limit too) at the calculated fee -1/0/+1, and 2-3 signer mixes; "+
 			"admit: a funded sender's transaction valid or made invalid in 1-2 chosen respects (system fee cap, script, expiry, not yet valid, blocked signer, size, fee below size*feePerByte+attribute fees, already on chain, named as conflict on chain, wrong signature, wrong witness script, attribute rules, balance, duplicate, pool conflict); "+
+			"wstate: a transaction co-signed by a non-standard verification script (Ledger.currentIndex < or >= N, GAS.balanceOf(X) < v, constant true) or a deployed contract's verify method, submitted, then 1-4 blocks that flip the witness or not; "+
 			"chist: 1-3 on-chain transactions naming the same hash in Conflicts, co-signed by the later submitter and/or a stranger, in blocks up to MaxTraceableBlocks+2 apart on a chain with MaxTraceableBlocks 6..12, then the named transaction submitted 0..MaxTraceableBlocks+1 blocks later; "+
 			"pack: pools of 6-30 transactions under small MaxTransactionsPerBlock/MaxBlockSize/MaxBlockSystemFee, with and without StateRootInHeader; "+
 			"non-trivial: multi-signature shape / any boundary / any admit case with a defect / a pack where a limit cut the set; distinct by Coq term")
@@ -512,6 +519,10 @@ func runC07(args []string) error {
 	// admit
 	for i := 0; i < cf.n/3; i++ {
 		c07Dispatch(co, "admit", enc(c07GenAdmit(r)))
+	}
+	// witnesses that depend on the chain state
+	for i := 0; i < cf.n/5; i++ {
+		c07Dispatch(co, "wstate", enc(c07GenWs(r)))
 	}
 	// on-chain conflict records over time
 	for i := 0; i < cf.n/5; i++ {
